@@ -231,6 +231,25 @@ def classifier_clause(model, rep, funcs):
         ok = n_ok and MI_.has("KMeans(n_clusters=n_clusters, random_state=seed, ...)") and MI_.has("PCA(n_components=n_components)")
         rep.ob("SLOT", i.anchor, "number of images is the first axis of the stack; k-means is seeded from the seed argument", ok, "", node=i.node, fn=i,
                clause="classifier", stmt="def __init__ (PcaClassifier)")
+        # multi-start k-means: a single k-means++ run ends in a local optimum that merges two clearly separated groups for some seeds (seeded change C18-4);
+        # the separation clause is over every seed, so the restarts are a necessary condition.  Decided on the constructor call: n_init is an integer literal >= 2.
+        for c_ in ast.walk(i.node):
+            if isinstance(c_, ast.Call) and norm_src(c_.func).split(".")[-1] == "KMeans":
+                rep.instance("SLOT.pca", i.loc(c_))
+                kw_ = {k.arg: k.value for k in c_.keywords if k.arg}
+                v_ = kw_.get("n_init")
+                if v_ is None and any(k.arg is None for k in c_.keywords):
+                    ok_ = None
+                elif v_ is None:
+                    ok_ = False
+                else:
+                    v_ = MI_.expr(v_)
+                    if isinstance(v_, ast.Constant):
+                        ok_ = isinstance(v_.value, int) and not isinstance(v_.value, bool) and v_.value >= 2
+                    else:
+                        ok_ = None
+                rep.ob("SLOT", i.anchor, "k-means is restarted from several initialisations (n_init is an integer >= 2), so well separated groups are not merged by one unlucky start",
+                       ok_, f"`{norm_src(c_)[:90]}`: n_init={'absent (library default \'auto\' = one k-means++ run)' if v_ is None else norm_src(v_)}", node=c_, fn=i, clause="classifier")
         # the stored stack is the raw stack: the mask enters once, in _image_flat(mask=True) - a stack that is pre-multiplied here is decomposed as stack * mask**2
         h_ = funcs.get(C + "_image_flat")
         fields_ = set()
